@@ -383,6 +383,47 @@ impl<const M: usize> World<M> {
         post
     }
 
+    /// If the arena's free space (below the bump finger of the newest chunk) reaches into a live
+    /// block, the very next allocation will be handed memory that is still live. Exhibit it: request
+    /// exactly the bytes between that block's start and the finger and judge the result (C01).
+    pub fn precursor_probe(&mut self, what: &'static str) {
+        if !self.judge || self.bump.is_none() {
+            return;
+        }
+        let p = self.observe();
+        if !p.iter_ok || p.nchunks == 0 {
+            return;
+        }
+        let (finger, len) = p.chunks[0];
+        let newest = match self.e().live_blocks(self.arena).max_by_key(|b| b.serial) {
+            Some(b) => *b,
+            None => return,
+        };
+        let victim = self.live.iter().filter(|l| l.size > 0 && l.addr >= newest.base && l.addr < newest.base + newest.size && l.addr < finger).map(|l| (l.addr, l.size)).min();
+        let (vaddr, vsize) = match victim {
+            Some(v) => v,
+            None => return,
+        };
+        let _ = len;
+        let want = (finger - vaddr).min(vsize.max(1) + 64);
+        if p.cap < want {
+            return;
+        }
+        self.terminal = true;
+        let envp = self.env;
+        let b = self.bump.take().unwrap();
+        let r = arena_op(envp, self.step, self.arena, &[crate::env::Answer::Refuse], || b.try_alloc_layout(std::alloc::Layout::from_size_align(want, 1).unwrap()).map(|p| p.as_ptr() as usize).ok());
+        self.bump = Some(b);
+        if let Ok(Some(a)) = r {
+            let before = self.viol.len();
+            self.accept_block("allocation_after_bad_rewind", a, want, 1, true, None);
+            if self.viol.len() > before {
+                let d = format!("after {what} the bump finger (rel {}) lies above the start of a live block (rel {}, {} bytes): the next request of {} bytes was placed on top of it", self.rel(finger), self.rel(vaddr), vsize, want);
+                self.v(1, "overlaps_live_block", format!("overlaps_live_block/after_{what}"), d);
+            }
+        }
+    }
+
     /// Canonical key of the current state (DESIGN.md §3.4).
     pub fn key(&self, p: &Pub) -> u128 {
         let mut h = Hasher128::new();
